@@ -50,4 +50,9 @@ META = {
   "design_ref": "§5 C16", "note": "Trusted: as C01. Entity counts of get_stats (streams/topics/partitions/segments/groups) are compared by correspondence; clients_count is not modelled.",
   "technique": "Lean 4 proof (counter clauses of the storage invariant) + differential correspondence incl. file sizes",
  },
+ "C08": {
+  "text": "45 Lean theorems (Iggy/Props/C08.lean) for every partition count, every member list in EVERY order, unbounded histories: exclusive_cover(_member/_client), shares_disjoint, shares_only_existing, balanced, share_size, members_preserved, assign_idempotent, join/leave/setParts/adopt lemmas, reachable_assigned / reachable_exclusive_cover / reachable_balanced (any history of join, leave, setParts, adopt-order from an empty group), rotation / rotation_round / rotation_from / empty_share_none / poll_from_own_share (Topic.resolve), reachable_with_polls_* (membership events interleaved with polls), and group-level delivery on the abstract partition: deliver_spec, delivery_progress, delivered_exact, delivered_prefix (everything handed to the group, by whichever member, is a prefix of the partition log in order, none twice), delivered_sublist / delivered_increasing with retention, topic_delivered_prefix (whole topic, members leaving and taking over). One target was false as first stated (Nodup of member ids under an adopt order with duplicates) and carries the explicit hypothesis GOp.WF (adopted orders are duplicate-free, which a hash-map iteration always is). " + TIE + "Histories: several TCP clients join/leave/disconnect groups while partitions are created/deleted, members poll next+auto-commit without naming a partition; after every membership change the group is observed; the implementation's own shares are also judged directly (cover, balance, existing).",
+  "design_ref": "§5 C08", "note": "Trusted: as C01; hash-map order is universally quantified in the theorems and observed in the correspondence.",
+  "technique": "Lean 4 proof (combinatorics of i mod m assignment; invariant over membership histories; prefix delivery by induction over events) + differential correspondence with several TCP clients",
+ },
 }
